@@ -403,7 +403,10 @@ def apply_edit(sv, e):
     elif k == "Permute":
         s.order_seed = 100 + e["s"]
     elif k == "Rename":
-        maps = {1: lambda i, x: "p%d_%s" % (9 - i, x), 2: lambda i, x: "%sŽ%d" % (x, i), 3: lambda i, x: "Z" * (i + 1) + x.lower() + "-点"}
+        maps = {1: lambda i, x: "p%d_%s" % (9 - i, x), 2: lambda i, x: "%sŽ%d" % (x, i), 3: lambda i, x: "Z" * (i + 1) + x.lower() + "-点",
+                4: lambda i, x: ["%s&%d", "<%s>%d", "%s'%d", '%s"%d'][i % 4] % (x, i)}          # characters that must be escaped in XML
+        if e["s"] == 4:
+            s.extra_desc = "a < b & c > d"
         for i, p in enumerate(s.pts):
             s.names[p["id"]] = maps[e["s"]](i, p["id"])
     elif k == "SwitchUnits":
